@@ -210,7 +210,7 @@ def make_stale(rng, tier):
 CORRUPTIONS = ['empty', 'truncate', 'truncate', 'truncate', 'overwrite', 'overwrite', 'zero', 'garbage',
                'text', 'other-object', 'splice', 'append', 'attr', 'attr']
 ALL_FAULTS = [cw.D_CRASH_BEFORE, cw.D_CRASH_AFTER, cw.D_TORN, cw.D_EIO, cw.D_ENOSPC, cw.D_EACCES,
-              cw.D_EMFILE, cw.D_ENOENT]
+              cw.D_EMFILE, cw.D_ENOENT, cw.D_MEMERR, cw.D_INTR]
 
 
 def make_torn(rng, tier):
@@ -238,7 +238,18 @@ def make_torn(rng, tier):
     while len(ops) < nops:
         r = rng.random()
         c = rng.randrange(cfg['cdirs']) if rng.random() < 0.9 else -1
-        if r < 0.5:
+        if r < 0.06 and not cfg['threads_share_process']:
+            # an editing session under faults: one process, one file, cache + diff_cache, save / parse /
+            # undo / parse ... - whatever a failed or interrupted save leaves in memory meets the next edit
+            base = dict(_parse_op(rng, cfg, ['cache+diff']), t=[])
+            ops.append(dict(base, t=[]))
+            for step in range(rng.randint(2, 5)):
+                ops.extend(_edit_ops(rng, cfg, state, f=base['f'])[-1:])
+                ops[-1].update({'how': 'atomic', 'dt': rng.choice([1.0, 2.5, 5.0])})
+                ops.append(dict(base, t=[]))
+                if rng.random() < 0.3:
+                    ops.append(dict(base, t=[]))
+        elif r < 0.5:
             op = _parse_op(rng, cfg, modes)
             ops.append(op)
             if cfg['nproc'] > 1 and rng.random() < 0.4:
